@@ -390,3 +390,62 @@ def run_strio(prog, rep):
         r = [n for n in op.walk() if n.k == 'return']
         rule.check(bool(r) and term(unwrap(r[0].c[0])) == ('f', 'buffer'), '%s|operator*' % cls.split('::')[-1], rep.where(op), op.label(), 'hands out the transfer buffer', 'operator* does not return the transfer buffer')
     return rule
+
+
+# settings of the data set creation property list that are known (libhdf5 documentation) to break the fill / exactness clauses
+DCPL_DENY = {
+    'H5Pset_fill_time': 'with H5D_FILL_TIME_NEVER libhdf5 does not write the fill value: elements exposed by growing (or never written) read as whatever the buffer held, not as zero / empty',
+    'H5Pset_fill_value': 'a non-default fill value makes never-written elements read as that value instead of zero / empty',
+    'H5Pset_scaleoffset': 'the scale-offset filter is lossy for floating point data',
+    'H5Pset_nbit': 'the n-bit filter drops bits of the stored values',
+    'H5Pset_external': 'external storage moves the raw data out of the file',
+    'H5Pset_alloc_time': 'a late/incremental allocation time combined with fill settings changes what unwritten elements read as',
+}
+
+
+def run_dcpl(prog, rep):
+    """H5Group::createData: the data set creation property list carries only chunking and the deflate filter"""
+    rule = rep.rule('R-DCPL', 'the data set creation property list carries no setting known to change what unwritten elements read as or to lose precision (deny list with reasons)', floor=1)
+    cd = prog.fn('nix::hdf5::H5Group::createData')
+    bad = []
+    for c in cd.calls():
+        nm = c.callee.get('name') or ''
+        if nm in DCPL_DENY:
+            bad.append('%s (line %s): %s' % (nm, c.l, DCPL_DENY[nm]))
+    sets = sorted(set(c.callee.get('name') for c in cd.calls() if (c.callee.get('name') or '').startswith('H5Pset')))
+    rule.check(not bad, 'H5Group::createData|dcpl', rep.where(cd), cd.q, 'settings applied: %s' % sets, '; '.join(bad[:2]))
+    others = []
+    for f in prog.funcs.values():
+        if f.body is None or f is cd or not f.q.startswith('nix::'):
+            continue
+        for c in f.calls():
+            if (c.callee.get('name') or '') in ('H5Dcreate', 'H5Dcreate2', 'H5Dcreate1'):
+                others.append(f.q)
+    rule.check(not others, 'H5Dcreate|who-calls', rep.where(cd), cd.q, 'data sets are created only by H5Group::createData', 'data sets are also created by %s (settings not examined)' % sorted(set(others)))
+    return rule
+
+
+def run_growable(prog, rep):
+    """every data set whose extent is changed later (array data, property values, frames) is created without a fixed maximum size"""
+    rule = rep.rule('R-GROW', 'data sets that are resized later are created with an unlimited maximum extent (no explicit maxsize, max_size_unlimited not false)', floor=3)
+    sites = [('nix::hdf5::DataArrayHDF5::createData', 'array data'), ('nix::hdf5::SectionHDF5::createProperty', 'property values'), ('nix::hdf5::DataFrameHDF5::createData', 'frame rows')]
+    for q, what in sites:
+        fs = [f for f in prog.fns(q) if f.body is not None and f.calls(name='createData')]
+        if not fs:
+            raise AnalysisBroken('anchor vanished: %s creating its data set' % q)
+        for f in fs:
+            for c in f.calls(name='createData'):
+                if 'H5Group' not in (c.callee.get('cls') or ''):
+                    continue
+                args = real_args(c)
+                probs = []
+                if len(args) > 4 and args[4] is not None and args[4].k != 'defarg':
+                    t = term(unwrap(args[4]))
+                    empty = isinstance(t, tuple) and ((t[0] == 'new' and len(t) == 2) or t == ('list',) or (t[0] == 'new' and t[-1] == ('list',)))
+                    if not empty:
+                        probs.append('an explicit maximum size (%s) is given: it takes precedence over max_size_unlimited, so the data set can never grow beyond it (a later larger assignment fails in H5Dset_extent)' % args[4].src(20))
+                if len(args) > 6 and args[6] is not None and args[6].k != 'defarg' and term(unwrap(args[6])) == ('k', False):
+                    probs.append('max_size_unlimited is false')
+                key = '%s%s|maxsize' % (q, '(%d)' % len(f.params))
+                rule.check(not probs, key, rep.where(c), f.label(), '%s: no maximum size' % what, '; '.join(probs))
+    return rule
